@@ -25,7 +25,7 @@ def strategy():
     def case(draw):
         cfg = draw(gen.st_config('@OUT@'))
         kind = draw(st.sampled_from(["v", "e"]))
-        real = draw(st.integers(0, 5)) == 0
+        real = draw(st.sampled_from([False] * 4 + [True]))
         big = not real
         argv = draw(gen.st_vector(big=big))
         envp = draw(gen.st_envp(big=big)) if kind == "e" else []
